@@ -184,6 +184,41 @@ pub fn run(tier: Tier) -> Report {
             }
         }
     }
+    // special-purpose ranges that embed IPv4 addresses or have zero halves: IPv4-mapped, IPv4-compatible,
+    // NAT64, 6to4, Teredo, link-local, loopback / unspecified
+    for a in [[0u8, 0, 0, 0], [1, 2, 3, 4], [124, 31, 75, 21], [192, 168, 1, 1], [255, 255, 255, 255], [10, 0, 0, 1], [127, 0, 0, 1], [3, 15, 63, 255]] {
+        let mut o = [0u8; 16];
+        o[10] = 0xff;
+        o[11] = 0xff;
+        o[12..16].copy_from_slice(&a);
+        v6.push(o); // ::ffff:a.b.c.d
+        let mut o = [0u8; 16];
+        o[12..16].copy_from_slice(&a);
+        v6.push(o); // ::a.b.c.d
+        let mut o = [0u8; 16];
+        o[0] = 0x00;
+        o[1] = 0x64;
+        o[2] = 0xff;
+        o[3] = 0x9b;
+        o[12..16].copy_from_slice(&a);
+        v6.push(o); // 64:ff9b::a.b.c.d
+        let mut o = [0u8; 16];
+        o[0] = 0x20;
+        o[1] = 0x02;
+        o[2..6].copy_from_slice(&a);
+        v6.push(o); // 2002:a.b.c.d::
+        let mut o = [0u8; 16];
+        o[0] = 0x20;
+        o[1] = 0x01;
+        o[4..8].copy_from_slice(&a);
+        o[12..16].copy_from_slice(&a);
+        v6.push(o); // 2001:0:a.b.c.d::...
+        let mut o = [0u8; 16];
+        o[0] = 0xfe;
+        o[1] = 0x80;
+        o[12..16].copy_from_slice(&a);
+        v6.push(o); // fe80::...
+    }
     if tier == Tier::Thorough {
         // every combination of the relevant bits of every pair of octets, zero background
         for a in 0..8usize {
@@ -257,7 +292,7 @@ pub fn run(tier: Tier) -> Report {
     rep.set("exhaustive", true);
     rep.set(
         "rule",
-        "IPv4: all 2^20 values of the mask-relevant bits x remaining bits all-0/all-1 (2^21 addresses); IPv6: every octet value at each of the 16 positions on all-0/all-1 backgrounds, every pair of single-bit flips in the /64 (thorough: + every relevant-bit combination of each octet pair and of octets 0..4). For each address from_ip is drawn until all 8 values of the 3 random bits were observed; distinct_nontrivial counts distinct (address, r) pairs; every draw is validated by an independent bitwise CRC32-C BEP42 validator (self-checked on the 5 published vectors).",
+        "IPv4: all 2^20 values of the mask-relevant bits x remaining bits all-0/all-1 (2^21 addresses); IPv6: every octet value at each of the first 8 positions (4 values at the last 8) on all-0/all-1 backgrounds, IPv4-embedding and special-purpose ranges (::ffff:0:0/96, ::/96, 64:ff9b::/96, 2002::/16, 2001::/32, fe80::/10), every pair of single-bit flips in the /64 (thorough: + every relevant-bit combination of each octet pair and of octets 0..4). For each address from_ip is drawn until all 8 values of the 3 random bits were observed; distinct_nontrivial counts distinct (address, r) pairs; every draw is validated by an independent bitwise CRC32-C BEP42 validator (self-checked on the 5 published vectors).",
     );
     let id: [u8; 20] = InfoHash::from_ip("124.31.75.21".parse().unwrap()).into();
     rep.sample(json!({"ip":"124.31.75.21","id":hex(&id),"valid":bep42_valid("124.31.75.21".parse().unwrap(), &id)}));
